@@ -1,6 +1,11 @@
 package redis
 
-import "fmt"
+import (
+	"errors"
+	"fmt"
+
+	"github.com/mgtv-tech/redis-GunYu/pkg/redis/client/common"
+)
 
 const nodePipelineMaxInFlight = 64
 
@@ -108,6 +113,13 @@ func (p *nodePipeline) run() {
 	// 同一条连接一旦发生协议/网络错误，后续 pending 请求的回复边界已不可信，
 	// 因此要整体失败，而不是继续尝试逐个读出。
 	failPending := func(err error) {
+		// a reply of the target (MOVED, ASK, ...) belongs to the request that received it : the requests behind it
+		// only learn that the connection was given up. Handed the redirect itself, they would follow it and be
+		// sent again, although the node may have executed them already.
+		var redisErr common.RedisError
+		if errors.As(err, &redisErr) {
+			err = fmt.Errorf("node pipeline connection aborted by an earlier request : node(%s), cause(%v)", p.node.address, err)
+		}
 		for _, req := range pending {
 			req.complete(nil, err)
 		}
